@@ -12,7 +12,8 @@ run unfix_f5 C07
 run unfix_f6 C17
 run unfix_f7 C10
 run unfix_f8 C07
-run unfix_f9 C15
+run unfix_f9 C15   # exit 0 expected: subsumed by F13 (see DESIGN 10.2)
+run unfix_f9_and_f13 C15
 run unfix_f10 C01
 run unfix_f11 C18
 run unfix_f12 C13
